@@ -121,6 +121,9 @@ pub fn step_strategy(reg: Reg, class_c: bool, allow_join: bool) -> impl Strategy
     }
     if allow_join {
         v.push((1, join_plan_strategy(reg).prop_map(Step::Join).boxed()));
+        // runs of unanswered join attempts: the join-channel walk of fixed plans has state that only
+        // long runs reach (sub-band rotation, exhausted retries)
+        v.push((1, prop_oneof![4 => 1u16..6, 1 => 40u16..90].prop_map(Step::JoinSilence).boxed()));
     }
     proptest::strategy::Union::new_weighted(v)
 }
